@@ -390,6 +390,9 @@ func c01Specs() []leafSpec {
 		var vals []string
 		for _, s := range append(append([]string{}, ps.Match...), ps.Miss...) {
 			vals = append(vals, gen.Q(s))
+			if len(s) > 0 && s[0] < 0x80 { // the same string with its first character written as a \u escape
+				vals = append(vals, fmt.Sprintf(`"\u%04x%s`, s[0], gen.Q(s[1:])[1:]))
+			}
 		}
 		specs = append(specs, leafSpec{"regex " + ps.Pat, []gen.Rule{{Name: "regex", Val: lit(gen.Q(ps.Pat))}}, "string", gen.Q(ps.Match[0]), vals})
 	}
